@@ -186,7 +186,14 @@ def tree_hash(mod=None):
         if mod is None:
             names = sorted(f for f in os.listdir(KDIR) if f.endswith(".rs"))
         else:
-            names = ["entry.rs", "mods.rs", "fw.rs", "hashmodel.rs"] + sorted(m + ".rs" for m in _module_files(mod))
+            names = ["entry.rs", "fw.rs"] + sorted(m + ".rs" for m in _module_files(mod))
+            if re.search(r"//\s*@config\s+.*features=\S*memoization", open(os.path.join(KDIR, mod + ".rs")).read()):
+                names.append("hashmodel.rs")  # the map contract is compiled in with the memoization feature only
+            # mods.rs only declares the harness modules (and lists them for the native registry): the lines
+            # that concern this harness's modules are part of its text, the declarations of other modules are not
+            deps = _module_files(mod)
+            decl = [l for l in open(os.path.join(KDIR, "mods.rs")).read().split("\n") if any(re.search(r"\b" + d + r"\b", l) for d in deps)]
+            hsh.update("\n".join(decl).encode())
         for f in names:
             hsh.update(f.encode())
             hsh.update(open(os.path.join(KDIR, f), "rb").read())
@@ -544,13 +551,38 @@ def do_replay(path):
 # ----------------------------------------------------------------------------------------------
 # deciding a property
 # ----------------------------------------------------------------------------------------------
+_DISPATCH = {}
+
+
+def dispatch_extra(reg, cat):
+    """C13: harnesses of combinators with a hand-written dynamic-dispatch entry point (go_emit / go_check not
+    generated by go_extra!). Through that entry point - the one Boxed / dyn Parser use, and the one every
+    harness enters by - the combinator owes its whole contract, so all obligations of these harnesses are
+    C13 obligations. -> (harness names, sites without a harness)"""
+    if "v" not in _DISPATCH:
+        import contracts_map
+        names, orphan = set(), []
+        for file, line, header in contracts_map.dispatch_sites(REPO):
+            pref = contracts_map.harness_prefixes_for(file, header)
+            hit = [n for n in reg["harnesses"] if n in cat and any(n.startswith(p) for p in pref)]
+            if hit:
+                names.update(hit)
+            else:
+                orphan.append(f"{file}:{line}: {header[:100]}")
+        _DISPATCH["v"] = (names, orphan)
+    return _DISPATCH["v"]
+
+
 def harnesses_for(pid, tier, reg, cat):
     """Harnesses whose registered obligations include tags of this property."""
     sel = []
+    extra13 = dispatch_extra(reg, cat)[0] if pid == "C13" else set()
     for n, e in reg["harnesses"].items():
         if n not in cat:
             continue
         tags = [t for t in e["tags"] if t.startswith(pid + "/")]
+        if n in extra13:
+            tags = list(e["tags"])
         if pid == "C04":
             # C04: every obligation of a Check-mode twin is a C04 obligation
             if not n.endswith("_check") and "_check_" not in n and not tags:
@@ -567,6 +599,8 @@ def harnesses_for(pid, tier, reg, cat):
 
 def obligations_of(pid, name, entry):
     tags = entry["tags"]
+    if pid == "C13" and name in _DISPATCH.get("v", (set(), []))[0]:
+        return {t: s for t, s in tags.items() if not t.startswith("FW/")}
     if pid == "C04" and (name.endswith("_check") or "_check_" in name):
         return {t: s for t, s in tags.items() if not t.startswith("FW/")}
     return {t: s for t, s in tags.items() if t.startswith(pid + "/")}
@@ -589,7 +623,7 @@ def decide(pid, tier, seed):
     results = run_pool(names, cat, tier)
 
     violations, undecided, known_hit = [], [], []
-    n_obl = n_dis = 0
+    n_obl = n_dis = n_dead = 0
     bounded = []
     samples = []
     solver_time = {}
@@ -641,6 +675,10 @@ def decide(pid, tier, seed):
                         n_obl += 1
                 else:
                     undecided.append(f"{n}: {tag} fails but was never registered as passing")
+            elif now == "UNREACHABLE" and was == "UNREACHABLE":
+                n_dead += 1  # dead code of this instantiation (registered as such): neither an obligation nor discharged
+            elif now == "UNREACHABLE" and not kfm and not [f for f in kf if re.fullmatch(f.get("harness", ""), n)]:
+                undecided.append(f"{n}: {tag} was discharged on the registered tree and is unreachable now (possible vacuity)")
             elif now in ("SUCCESS", "UNREACHABLE"):
                 if kfm:
                     pass  # a listed finding that no longer fails: counts as discharged, nothing to print
@@ -653,8 +691,10 @@ def decide(pid, tier, seed):
                         samples.append({"harness": n, "obligation": tag, "status": now, "backend": "kani/cbmc"})
             else:
                 undecided.append(f"{n}: {tag} is {now}")
-        if pid == "C20":
-            # Kani's automatic checks (panics, overflow, bounds, pointer validity) in the code under contract
+        # Kani's automatic checks (panics, overflow, bounds, pointer validity, invalid drops) in the code under
+        # contract: obligations of C20 everywhere, and of C19 at the unsafe sites (h_drop: a value dropped that
+        # was never produced, or read from memory that does not hold one, is a C19 matter as well)
+        if pid == "C20" or (pid == "C19" and cat[n]["module"] == "h_drop"):
             real = [c for c in auto_fail if "/verif/kani" not in c["loc"]]
             own = [c for c in auto_fail if "/verif/kani" in c["loc"]]
             if own:
@@ -666,8 +706,8 @@ def decide(pid, tier, seed):
             was_auto = set(reg["harnesses"][n].get("auto_failures", []))
             for c in real:
                 key = f"{c['name']}: {c['desc']} @ {c['loc']}"
-                tag = "C20/auto." + c["name"]
-                kfm = [f for f in kf if f["obligation"] in (tag, "C20/auto") and f.get("harness") in (None, n) and f.get("match", "") in key]
+                tag = pid + "/auto." + c["name"]
+                kfm = [f for f in kf if f["obligation"] in (tag, pid + "/auto") and f.get("harness") in (None, n) and f.get("match", "") in key]
                 if kfm:
                     known_hit.append((kfm[0], n))
                     n_obl -= 0
@@ -683,6 +723,10 @@ def decide(pid, tier, seed):
         frame = {"interior_mutability_sites": sites, "unreviewed": unreviewed}
         for u in unreviewed:
             undecided.append(f"frame: interior-mutability site not in the reviewed list (a parser could keep state across parses through it): {u}")
+        names13, orphan = dispatch_extra(reg, cat)
+        frame["hand_written_dispatch_entry_points"] = {"harnesses_counted_in_full": sorted(names13), "without_a_harness": orphan}
+        for o in orphan:
+            undecided.append(f"dispatch: hand-written go_emit/go_check with no harness on its combinator (results through boxed()/dyn may differ from the static path): {o}")
 
     # Verus part of the property
     v = verus_checks.run(pid, tier, REPO, WORK)
@@ -723,7 +767,7 @@ def decide(pid, tier, seed):
             rec["verus"] = True
             suffix = " no-failing-input-found"
         else:
-            cex, why = find_counterexample(n, tag.split(" ")[0] if not tag.startswith("C20/auto") else "PANIC", seed)
+            cex, why = find_counterexample(n, tag.split(" ")[0] if "/auto." not in tag else "PANIC", seed)
             if cex:
                 rec["script"] = cex["script"]
                 rec["native_obligation"] = cex["obligation"]
@@ -768,6 +812,7 @@ def decide(pid, tier, seed):
             "harness_results_reused_from_identical_tree": sorted(n for n in names if results[n].get("cached")),
             "reuse_note": "a harness result is reused only when /repo/src, Cargo.toml/lock, the harness sources and the tool version hash to the same value as when this machinery produced it (set VERIF_NO_CACHE=1 to force re-verification)",
             "verus": {"functions": [o["name"] for o in v["obligations"]], "time_s": v.get("time_s"), "extraction": v.get("extraction", [])},
+            "obligations_dead_in_their_instantiation_not_counted": n_dead,
             "bounded_obligations": bounded,
             "bounded_note": "bounded obligations are listed with their bound and are NOT counted in obligations/discharged",
             "functions_under_contract": assumptions.functions_under_contract(pid, names, reg, REPO),
